@@ -201,6 +201,12 @@ def _absres(r):
     return -2
 
 
+class AppError(Exception):
+    def __init__(self, what, item, wanted):
+        super(AppError, self).__init__('%s: %s (%d wanted)' % (what, item, wanted))
+        self.item = item
+
+
 def make_obj_class(versions=False):
     """The replicated object: its state is the sequence of executed commands (free state machine)."""
 
@@ -251,7 +257,16 @@ def make_obj_class(versions=False):
         def boom(self, cid):
             self._sim.cluster.rec.step_obs.append({'k': 'raise', 'n': self._sim.id, 'cid': cid,
                                                    'pos': self.raftLastApplied + 1})
-            raise ValueError('boom')
+            # what applications raise: built-in errors, failed assertions, their own exception classes (one whose
+            # constructor does not take what it passes on to Exception: it pickles, but does not unpickle)
+            kind = sum(bytearray(str(cid).encode())) % 4
+            if kind == 0:
+                raise ValueError('boom')
+            if kind == 1:
+                raise AssertionError('boom')
+            if kind == 2:
+                raise KeyError(cid)
+            raise AppError('stock', cid, 3)
 
         if versions is not False and versions is not None:
             # versions = code level of this node's class: level 0 has the implementation for version 0 only, level 1 adds
